@@ -11,6 +11,13 @@ pub open spec fn is_rha_nonneg(n: int, d: int, q: int) -> bool {
     2 * q * d <= 2 * n + d && 2 * n + d < 2 * (q + 1) * d
 }
 pub open spec fn abs(x: int) -> int { if x < 0 { -x } else { x } }
+// the rounded quotient |n|/|d| fits an i32 magnitude
+pub open spec fn representable(n: int, d: int) -> bool { 2 * n + d < 2 * 0x80000000 * d }
+// std: i32::wrapping_neg has no vstd specification in this Verus build (trusted, standard two's-complement semantics)
+pub open spec fn wneg(x: i32) -> i32 { if x == i32::MIN { i32::MIN } else { (-(x as int)) as i32 } }
+pub assume_specification [i32::wrapping_neg] (x: i32) -> (r: i32)
+    ensures r == wneg(x);
+
 
 //@require source=fixed seq="pub struct Fixed(i32);"
 pub struct Fixed(pub i32);
@@ -21,52 +28,62 @@ impl Fixed {
 //@extract source=fixed container="mod fixed||impl Div for Fixed" fn=div ret=r
 //@rewrite "Self::Output" => "Self"
 //@spec
-        requires
-            self.0 != i32::MIN, other.0 != i32::MIN,
-            // the rounded quotient is representable
-            other.0 != 0 ==> 2 * (abs(self.0 as int) * 65536) + abs(other.0 as int) < 2 * 0x80000000 * abs(other.0 as int),
+        // no precondition: total and overflow-free for every pair of operands (incl. i32::MIN)
         ensures
             other.0 == 0 ==> r.0 == (if self.0 < 0 { -0x7FFFFFFFi32 } else { 0x7FFFFFFFi32 }),
-            other.0 != 0 ==> is_rha_nonneg(abs(self.0 as int) * 65536, abs(other.0 as int),
-                if (self.0 < 0) != (other.0 < 0) { -(r.0 as int) } else { r.0 as int }),
+            // whenever the exact quotient rounded half away from zero is representable, that is the result
+            other.0 != 0 && representable(abs(self.0 as int) * 65536, abs(other.0 as int))
+                ==> is_rha_nonneg(abs(self.0 as int) * 65536, abs(other.0 as int),
+                    if (self.0 < 0) != (other.0 < 0) { -(r.0 as int) } else { r.0 as int }),
             // corollaries used by callers (fvar normalisation)
             other.0 != 0 && abs(self.0 as int) <= abs(other.0 as int) ==> -65536 <= r.0 <= 65536,
             other.0 != 0 && self.0 == other.0 ==> r.0 == 65536,
-            other.0 != 0 && self.0 == -other.0 ==> r.0 == -65536,
+            other.0 != 0 && self.0 != i32::MIN && self.0 == -other.0 ==> r.0 == -65536,
             other.0 != 0 && self.0 == 0 ==> r.0 == 0,
-            other.0 != 0 && ((self.0 < 0) == (other.0 < 0)) ==> r.0 >= 0,
-            other.0 != 0 && ((self.0 < 0) != (other.0 < 0)) ==> r.0 <= 0,
-//@at before "((((a as u64) << 16)"
-            proof {
-                assert((a as u64) << 16 == (a as u64) * 65536) by(bit_vector) requires 0 <= a <= 0x7FFFFFFF;
-                assert((b as u64) >> 1 == (b as u64) / 2) by(bit_vector);
-                let n = a as int * 65536;
-                let bi = b as int;
-                let x = n + bi / 2;
-                let qi = x / bi;
-                assert(x == bi * qi + x % bi && 0 <= x % bi < bi) by(nonlinear_arith) requires bi > 0, qi == x / bi;
-                assert(2 * qi * bi <= 2 * n + bi && 2 * n + bi < 2 * (qi + 1) * bi) by(nonlinear_arith)
-                    requires x == bi * qi + x % bi, 0 <= x % bi < bi, x == n + bi / 2, bi > 0;
-                assert(qi < 0x80000000) by(nonlinear_arith)
-                    requires 2 * qi * bi <= 2 * n + bi, 2 * n + bi < 2 * 0x80000000 * bi, bi > 0;
-                assert(qi >= 0) by(nonlinear_arith) requires 2 * n + bi < 2 * (qi + 1) * bi, n >= 0, bi > 0;
-                // corollaries
-                assert(a as int <= bi ==> qi <= 65536) by(nonlinear_arith)
-                    requires 2 * qi * bi <= 2 * n + bi, n == a as int * 65536, bi > 0, a >= 0;
-                assert(a as int == bi ==> qi == 65536) by(nonlinear_arith)
-                    requires 2 * qi * bi <= 2 * n + bi, 2 * n + bi < 2 * (qi + 1) * bi, n == a as int * 65536, bi > 0;
-                assert(a == 0 ==> qi == 0) by(nonlinear_arith)
-                    requires 2 * qi * bi <= 2 * n + bi, 2 * n + bi < 2 * (qi + 1) * bi, n == a as int * 65536, bi > 0, qi >= 0;
-            }
+            other.0 != 0 && abs(self.0 as int) <= abs(other.0 as int) && ((self.0 < 0) == (other.0 < 0)) ==> r.0 >= 0,
+            other.0 != 0 && abs(self.0 as int) <= abs(other.0 as int) && ((self.0 < 0) != (other.0 < 0)) ==> r.0 <= 0,
+//@at before "let q ="
+        proof {
+            let x = self.0; let y = other.0;
+            assert(x < 0 && x != i32::MIN ==> ((-x) as u32) as int == -(x as int)) by(bit_vector);
+            assert(y < 0 && y != i32::MIN ==> ((-y) as u32) as int == -(y as int)) by(bit_vector);
+            assert(x >= 0 ==> (x as u32) as int == x as int) by(bit_vector);
+            assert(y >= 0 ==> (y as u32) as int == y as int) by(bit_vector);
+            assert((i32::MIN as u32) as int == 0x80000000) by(bit_vector);
+            assert((a as u32) as int == abs(self.0 as int));
+            assert((b as u32) as int == abs(other.0 as int));
+        }
+//@at after "let (a, b) = (a as u32 as u64, b as u32 as u64);"
+                proof {
+                    assert(a << 16 == a * 65536) by(bit_vector) requires a <= 0x80000000u64;
+                    assert(b >> 1 == b / 2) by(bit_vector);
+                    let n = a as int * 65536;
+                    let bi = b as int;
+                    let x = n + bi / 2;
+                    let qi = x / bi;
+                    assert(x == bi * qi + x % bi && 0 <= x % bi < bi) by(nonlinear_arith) requires bi > 0, qi == x / bi;
+                    assert(2 * qi * bi <= 2 * n + bi && 2 * n + bi < 2 * (qi + 1) * bi) by(nonlinear_arith)
+                        requires x == bi * qi + x % bi, 0 <= x % bi < bi, x == n + bi / 2, bi > 0;
+                    assert(representable(n, bi) ==> qi < 0x80000000) by(nonlinear_arith)
+                        requires 2 * qi * bi <= 2 * n + bi, bi > 0;
+                    assert(qi >= 0) by(nonlinear_arith) requires 2 * n + bi < 2 * (qi + 1) * bi, n >= 0, bi > 0;
+                    // corollaries
+                    assert(a as int <= bi ==> qi <= 65536 && representable(n, bi)) by(nonlinear_arith)
+                        requires 2 * qi * bi <= 2 * n + bi, n == a as int * 65536, bi > 0, a >= 0;
+                    assert(a as int == bi ==> qi == 65536) by(nonlinear_arith)
+                        requires 2 * qi * bi <= 2 * n + bi, 2 * n + bi < 2 * (qi + 1) * bi, n == a as int * 65536, bi > 0;
+                    assert(a == 0 ==> qi == 0) by(nonlinear_arith)
+                        requires 2 * qi * bi <= 2 * n + bi, 2 * n + bi < 2 * (qi + 1) * bi, n == a as int * 65536, bi > 0, qi >= 0;
+                }
 //@end
 //@extract source=fixed container="mod fixed||impl Fixed" fn=mul_div ret=r
 //@spec
-        requires
-            b.0 != 0 ==> 2 * (abs(self.0 as int) * abs(a.0 as int)) + abs(b.0 as int) < 2 * 0x80000000 * abs(b.0 as int),
+        // no precondition: total and overflow-free for every triple of operands
         ensures
             b.0 == 0 ==> r.0 == (if (self.0 < 0) != (a.0 < 0) { -0x7FFFFFFFi32 } else { 0x7FFFFFFFi32 }),
-            b.0 != 0 ==> is_rha_nonneg(abs(self.0 as int) * abs(a.0 as int), abs(b.0 as int),
-                if ((self.0 < 0) != (a.0 < 0)) != (b.0 < 0) { -(r.0 as int) } else { r.0 as int }),
+            b.0 != 0 && representable(abs(self.0 as int) * abs(a.0 as int), abs(b.0 as int))
+                ==> is_rha_nonneg(abs(self.0 as int) * abs(a.0 as int), abs(b.0 as int),
+                    if ((self.0 < 0) != (a.0 < 0)) != (b.0 < 0) { -(r.0 as int) } else { r.0 as int }),
 //@at before "if self.0 < 0"
         proof {
             let x = self.0; let y = a.0; let z = b.0;
@@ -93,8 +110,8 @@ impl Fixed {
                 assert(x == bi * qi + x % bi && 0 <= x % bi < bi) by(nonlinear_arith) requires bi > 0, qi == x / bi;
                 assert(2 * qi * bi <= 2 * n + bi && 2 * n + bi < 2 * (qi + 1) * bi) by(nonlinear_arith)
                     requires x == bi * qi + x % bi, 0 <= x % bi < bi, x == n + bi / 2, bi > 0;
-                assert(qi < 0x80000000) by(nonlinear_arith)
-                    requires 2 * qi * bi <= 2 * n + bi, 2 * n + bi < 2 * 0x80000000 * bi, bi > 0;
+                assert(representable(n, bi) ==> qi < 0x80000000) by(nonlinear_arith)
+                    requires 2 * qi * bi <= 2 * n + bi, bi > 0;
                 assert(qi >= 0) by(nonlinear_arith) requires 2 * n + bi < 2 * (qi + 1) * bi, n >= 0, bi > 0;
             }
 //@end
@@ -105,52 +122,62 @@ impl F26Dot6 {
 //@extract source=fixed container="mod fixed||impl Div for F26Dot6" fn=div ret=r
 //@rewrite "Self::Output" => "Self"
 //@spec
-        requires
-            self.0 != i32::MIN, other.0 != i32::MIN,
-            // the rounded quotient is representable
-            other.0 != 0 ==> 2 * (abs(self.0 as int) * 65536) + abs(other.0 as int) < 2 * 0x80000000 * abs(other.0 as int),
+        // no precondition: total and overflow-free for every pair of operands (incl. i32::MIN)
         ensures
             other.0 == 0 ==> r.0 == (if self.0 < 0 { -0x7FFFFFFFi32 } else { 0x7FFFFFFFi32 }),
-            other.0 != 0 ==> is_rha_nonneg(abs(self.0 as int) * 65536, abs(other.0 as int),
-                if (self.0 < 0) != (other.0 < 0) { -(r.0 as int) } else { r.0 as int }),
+            // whenever the exact quotient rounded half away from zero is representable, that is the result
+            other.0 != 0 && representable(abs(self.0 as int) * 65536, abs(other.0 as int))
+                ==> is_rha_nonneg(abs(self.0 as int) * 65536, abs(other.0 as int),
+                    if (self.0 < 0) != (other.0 < 0) { -(r.0 as int) } else { r.0 as int }),
             // corollaries used by callers (fvar normalisation)
             other.0 != 0 && abs(self.0 as int) <= abs(other.0 as int) ==> -65536 <= r.0 <= 65536,
             other.0 != 0 && self.0 == other.0 ==> r.0 == 65536,
-            other.0 != 0 && self.0 == -other.0 ==> r.0 == -65536,
+            other.0 != 0 && self.0 != i32::MIN && self.0 == -other.0 ==> r.0 == -65536,
             other.0 != 0 && self.0 == 0 ==> r.0 == 0,
-            other.0 != 0 && ((self.0 < 0) == (other.0 < 0)) ==> r.0 >= 0,
-            other.0 != 0 && ((self.0 < 0) != (other.0 < 0)) ==> r.0 <= 0,
-//@at before "((((a as u64) << 16)"
-            proof {
-                assert((a as u64) << 16 == (a as u64) * 65536) by(bit_vector) requires 0 <= a <= 0x7FFFFFFF;
-                assert((b as u64) >> 1 == (b as u64) / 2) by(bit_vector);
-                let n = a as int * 65536;
-                let bi = b as int;
-                let x = n + bi / 2;
-                let qi = x / bi;
-                assert(x == bi * qi + x % bi && 0 <= x % bi < bi) by(nonlinear_arith) requires bi > 0, qi == x / bi;
-                assert(2 * qi * bi <= 2 * n + bi && 2 * n + bi < 2 * (qi + 1) * bi) by(nonlinear_arith)
-                    requires x == bi * qi + x % bi, 0 <= x % bi < bi, x == n + bi / 2, bi > 0;
-                assert(qi < 0x80000000) by(nonlinear_arith)
-                    requires 2 * qi * bi <= 2 * n + bi, 2 * n + bi < 2 * 0x80000000 * bi, bi > 0;
-                assert(qi >= 0) by(nonlinear_arith) requires 2 * n + bi < 2 * (qi + 1) * bi, n >= 0, bi > 0;
-                // corollaries
-                assert(a as int <= bi ==> qi <= 65536) by(nonlinear_arith)
-                    requires 2 * qi * bi <= 2 * n + bi, n == a as int * 65536, bi > 0, a >= 0;
-                assert(a as int == bi ==> qi == 65536) by(nonlinear_arith)
-                    requires 2 * qi * bi <= 2 * n + bi, 2 * n + bi < 2 * (qi + 1) * bi, n == a as int * 65536, bi > 0;
-                assert(a == 0 ==> qi == 0) by(nonlinear_arith)
-                    requires 2 * qi * bi <= 2 * n + bi, 2 * n + bi < 2 * (qi + 1) * bi, n == a as int * 65536, bi > 0, qi >= 0;
-            }
+            other.0 != 0 && abs(self.0 as int) <= abs(other.0 as int) && ((self.0 < 0) == (other.0 < 0)) ==> r.0 >= 0,
+            other.0 != 0 && abs(self.0 as int) <= abs(other.0 as int) && ((self.0 < 0) != (other.0 < 0)) ==> r.0 <= 0,
+//@at before "let q ="
+        proof {
+            let x = self.0; let y = other.0;
+            assert(x < 0 && x != i32::MIN ==> ((-x) as u32) as int == -(x as int)) by(bit_vector);
+            assert(y < 0 && y != i32::MIN ==> ((-y) as u32) as int == -(y as int)) by(bit_vector);
+            assert(x >= 0 ==> (x as u32) as int == x as int) by(bit_vector);
+            assert(y >= 0 ==> (y as u32) as int == y as int) by(bit_vector);
+            assert((i32::MIN as u32) as int == 0x80000000) by(bit_vector);
+            assert((a as u32) as int == abs(self.0 as int));
+            assert((b as u32) as int == abs(other.0 as int));
+        }
+//@at after "let (a, b) = (a as u32 as u64, b as u32 as u64);"
+                proof {
+                    assert(a << 16 == a * 65536) by(bit_vector) requires a <= 0x80000000u64;
+                    assert(b >> 1 == b / 2) by(bit_vector);
+                    let n = a as int * 65536;
+                    let bi = b as int;
+                    let x = n + bi / 2;
+                    let qi = x / bi;
+                    assert(x == bi * qi + x % bi && 0 <= x % bi < bi) by(nonlinear_arith) requires bi > 0, qi == x / bi;
+                    assert(2 * qi * bi <= 2 * n + bi && 2 * n + bi < 2 * (qi + 1) * bi) by(nonlinear_arith)
+                        requires x == bi * qi + x % bi, 0 <= x % bi < bi, x == n + bi / 2, bi > 0;
+                    assert(representable(n, bi) ==> qi < 0x80000000) by(nonlinear_arith)
+                        requires 2 * qi * bi <= 2 * n + bi, bi > 0;
+                    assert(qi >= 0) by(nonlinear_arith) requires 2 * n + bi < 2 * (qi + 1) * bi, n >= 0, bi > 0;
+                    // corollaries
+                    assert(a as int <= bi ==> qi <= 65536 && representable(n, bi)) by(nonlinear_arith)
+                        requires 2 * qi * bi <= 2 * n + bi, n == a as int * 65536, bi > 0, a >= 0;
+                    assert(a as int == bi ==> qi == 65536) by(nonlinear_arith)
+                        requires 2 * qi * bi <= 2 * n + bi, 2 * n + bi < 2 * (qi + 1) * bi, n == a as int * 65536, bi > 0;
+                    assert(a == 0 ==> qi == 0) by(nonlinear_arith)
+                        requires 2 * qi * bi <= 2 * n + bi, 2 * n + bi < 2 * (qi + 1) * bi, n == a as int * 65536, bi > 0, qi >= 0;
+                }
 //@end
 //@extract source=fixed container="mod fixed||impl F26Dot6" fn=mul_div ret=r
 //@spec
-        requires
-            b.0 != 0 ==> 2 * (abs(self.0 as int) * abs(a.0 as int)) + abs(b.0 as int) < 2 * 0x80000000 * abs(b.0 as int),
+        // no precondition: total and overflow-free for every triple of operands
         ensures
             b.0 == 0 ==> r.0 == (if (self.0 < 0) != (a.0 < 0) { -0x7FFFFFFFi32 } else { 0x7FFFFFFFi32 }),
-            b.0 != 0 ==> is_rha_nonneg(abs(self.0 as int) * abs(a.0 as int), abs(b.0 as int),
-                if ((self.0 < 0) != (a.0 < 0)) != (b.0 < 0) { -(r.0 as int) } else { r.0 as int }),
+            b.0 != 0 && representable(abs(self.0 as int) * abs(a.0 as int), abs(b.0 as int))
+                ==> is_rha_nonneg(abs(self.0 as int) * abs(a.0 as int), abs(b.0 as int),
+                    if ((self.0 < 0) != (a.0 < 0)) != (b.0 < 0) { -(r.0 as int) } else { r.0 as int }),
 //@at before "if self.0 < 0"
         proof {
             let x = self.0; let y = a.0; let z = b.0;
@@ -177,8 +204,8 @@ impl F26Dot6 {
                 assert(x == bi * qi + x % bi && 0 <= x % bi < bi) by(nonlinear_arith) requires bi > 0, qi == x / bi;
                 assert(2 * qi * bi <= 2 * n + bi && 2 * n + bi < 2 * (qi + 1) * bi) by(nonlinear_arith)
                     requires x == bi * qi + x % bi, 0 <= x % bi < bi, x == n + bi / 2, bi > 0;
-                assert(qi < 0x80000000) by(nonlinear_arith)
-                    requires 2 * qi * bi <= 2 * n + bi, 2 * n + bi < 2 * 0x80000000 * bi, bi > 0;
+                assert(representable(n, bi) ==> qi < 0x80000000) by(nonlinear_arith)
+                    requires 2 * qi * bi <= 2 * n + bi, bi > 0;
                 assert(qi >= 0) by(nonlinear_arith) requires 2 * n + bi < 2 * (qi + 1) * bi, n >= 0, bi > 0;
             }
 //@end
